@@ -92,6 +92,9 @@ func (e *Exec) callFunction(st *State, fr *Frame, site ssa.Instruction, fn *ssa.
 	}
 	// external function
 	full := fn.String()
+	if full == "(*sync.WaitGroup).Add" && len(e.db.wgorders) > 0 && len(args) == 2 {
+		e.checkWgOrder(st, fr, site, e.term(args[0]), e.term(args[1]))
+	}
 	if c, ok := e.db.externs[full]; ok {
 		e.usedExt[full] = true
 		return e.applyContract(st, fr, site, c, fn, args, k)
